@@ -333,7 +333,7 @@ func c07DoRequest(ip string, port int, host string, k int) (status int, hdr stri
 		return 0, "", "", nil, err
 	}
 	defer conn.Close()
-	conn.SetDeadline(time.Now().Add(6 * time.Second))
+	conn.SetDeadline(time.Now().Add(5 * time.Second))
 	req := fmt.Sprintf("GET /r%d HTTP/1.1\r\nHost: %s\r\nConnection: close\r\n\r\n", k, host)
 	if _, err = conn.Write([]byte(req)); err != nil {
 		return 0, "", "", nil, err
@@ -388,6 +388,7 @@ type c07Lineage struct {
 	slotIno  map[int]uint64
 	slotGen  map[int]int
 	nextAddr int
+	timeouts int64        // requests that ended in a client timeout: the lineage is cut short after 2
 	allowed  map[int]bool // slots clients may target (guarded by mu)
 	inflight [4]int64     // requests in flight per slot
 }
@@ -419,6 +420,9 @@ func (l *c07Lineage) request(t c07Target, force bool) {
 	r := c07Req{K: k, Addr: t.maddr, Site: t.site, StartNs: ts, EndNs: te, Status: status}
 	if err != nil {
 		r.Err = c07ErrClass(err) + ": " + err.Error()
+		if strings.HasPrefix(r.Err, "timeout") {
+			atomic.AddInt64(&l.timeouts, 1)
+		}
 	} else {
 		var cfg, slot, site, blen int
 		if n, _ := fmt.Sscanf(x, "%d %d %d %d", &cfg, &slot, &site, &blen); n != 4 || status != 200 {
@@ -615,7 +619,17 @@ func c07RunLineage(in *c07In) (res Result) {
 
 	// the process-lifetime wait group must not be released while the lineage serves
 	waitDone := make(chan struct{})
-	go func(i *casket.Instance) { i.Wait(); close(waitDone) }(inst)
+	var waitPanic atomic.Value
+	go func(i *casket.Instance) {
+		defer func() {
+			if p := recover(); p != nil {
+				waitPanic.Store(fmt.Sprint(p))
+				close(waitDone)
+			}
+		}()
+		i.Wait()
+		close(waitDone)
+	}(inst)
 
 	// heartbeat: a process that was not scheduled for seconds (loaded machine, frozen VM) makes
 	// client deadlines fire although the server would have answered; such runs are repeated
@@ -646,7 +660,7 @@ func c07RunLineage(in *c07In) (res Result) {
 			go func(c int) {
 				defer wg.Done()
 				r := NewRand(in.Seed*1000 + uint64(c))
-				for atomic.LoadInt32(&stop) == 0 {
+				for atomic.LoadInt32(&stop) == 0 && atomic.LoadInt64(&l.timeouts) < 2 {
 					if int(atomic.AddInt64(&l.nreq, 1)) > in.MaxReq {
 						return
 					}
@@ -668,7 +682,7 @@ func c07RunLineage(in *c07In) (res Result) {
 		if len(ts) == 0 {
 			return
 		}
-		for i := 0; i < in.PerPhase; i++ {
+		for i := 0; i < in.PerPhase && atomic.LoadInt64(&l.timeouts) < 2; i++ {
 			l.request(ts[(i+r.Intn(2))%len(ts)], false)
 		}
 	}
@@ -679,6 +693,10 @@ func c07RunLineage(in *c07In) (res Result) {
 
 	for n1, rl := range in.Reloads {
 		n := n1 + 1
+		if atomic.LoadInt64(&l.timeouts) >= 2 {
+			obs.Note += fmt.Sprintf("lineage cut short before reload %d after client timeouts; ", n)
+			break
+		}
 		if rl.GapUs > 0 {
 			time.Sleep(time.Duration(rl.GapUs) * time.Microsecond)
 		}
@@ -865,6 +883,9 @@ func c07RunLineage(in *c07In) (res Result) {
 	res.Key = strings.Join(h, "|") + fmt.Sprint(in.Seed)
 	if obs.WaitEarly {
 		res.Direct = "Instance.Wait() returned while the lineage was still serving (wait-group released early)"
+		if p := waitPanic.Load(); p != nil {
+			res.Direct = "Instance.Wait() panicked while the lineage was serving: " + p.(string)
+		}
 	}
 	return
 }
@@ -876,8 +897,15 @@ func c07Short(s string) string {
 	return s
 }
 
+// lineages of this run that were cut short by client timeouts; after 5 of them the remaining
+// cases are skipped (the violations are on record, each further one would cost seconds)
+var c07Hung int
+
 func c07Run(x interface{}) Result {
 	in := x.(*c07In)
+	if c07Hung >= 5 {
+		return Result{Term: "(CHist [] [] [])", Sig: "skipped", Class: "skipped-after-hangs", Obs: c07Obs{Note: "skipped: 5 earlier lineages of this run hung"}}
+	}
 	done := make(chan Result, 1)
 	go func() {
 		defer func() {
@@ -893,8 +921,12 @@ func c07Run(x interface{}) Result {
 			in.retries++
 			return c07Run(in)
 		}
+		if o, ok := r.Obs.(c07Obs); ok && strings.Contains(o.Note, "cut short") {
+			c07Hung++
+		}
 		return r
 	case <-time.After(90 * time.Second):
+		c07Hung++
 		return Result{Term: "(CHist [] [] [])", Sig: "hang", Class: "hang", Direct: "the lineage did not finish within 90 s (Restart or Stop hangs)"}
 	}
 }
